@@ -19,9 +19,10 @@
    Machines (Run/NameMatcherGate.v): gate / bseq = one broker context through grun / brun (polls through the gate
    or through the wire decoder, client offers served by the matching machine); sess = one proxy through prun
    (relay URL string -> check -> string handed to the dialer -> what the dialer connects to).
+   main() (Run/NameMatcherMain.v): mainrun = the proxy binary from its command line to the decisions of its sessions.
    All string arguments are payload specs (x<hex> / g<len>.<a>). *)
 From Coq Require Import List NArith Bool Arith String.
-From Snow Require Import Lib.Wire Model.NameMatcher Model.RelayCheck Run.NameMatcherGate.
+From Snow Require Import Lib.Wire Model.NameMatcher Model.RelayCheck Run.NameMatcherGate Run.NameMatcherMain.
 Import ListNotations.
 Open Scope N_scope.
 
@@ -142,6 +143,9 @@ Definition run (args : list bytes) : bytes :=
         end
       else if beq d (bs "E") then run_url op a b c (Some ParseError)
       else ERR_BADCASE
+  | [op; a; b; c; d; e] =>
+      (* the proxy binary's main(): Run/NameMatcherMain.v *)
+      if beq op (bs "mainrun") then run_mainrun a b c d e else ERR_BADCASE
   | [op; a; b; c; d; e; f] =>
       if beq d (bs "P") then
         match payload_parse e, payload_parse f with
